@@ -453,9 +453,9 @@ def base_snapshot(key, strlen):
 class Reorder(Unit):
     name = "reorder-glyphs"
     rule = ("reorderGlyphs(font, order): EVERY permutation of the non-.notdef glyphs for fonts with <=5 (thorough 6) of them (generated pool: glyf, CFF, CFF2, kern, vmtx, GSUB single/ligature/context, GPOS pair/class/mark/mkmk, GDEF, gvar/HVAR/MVAR); for larger corpus fonts the generators rotation by 1 and n/2, reversal, adjacent transpositions and (1 k) swaps (all in thorough, 10 rotating with the seed in quick); "
-            "the first two permutations of every font also on a lazily loaded font; fonts include variants with HVAR/VVAR delta sets indexed by glyph ID (no advance map); font saved and reloaded; oracle: by glyph name, HarfBuzz outline + horizontal and vertical advance at {default, each axis min/max, all-max}, nominal glyph per code point, shaping of all strings of length <=2 (thorough 3) over 6 characters identical; distinct = (font, permutation)")
+            "the first two permutations of every font also on a lazily loaded font and on a font object that was fully decoded and saved once before; fonts include variants with HVAR/VVAR delta sets indexed by glyph ID (no advance map); font saved and reloaded; oracle: by glyph name, HarfBuzz outline + horizontal and vertical advance at {default, each axis min/max, all-max}, nominal glyph per code point, shaping of all strings of length <=2 (thorough 3) over 6 characters identical; distinct = (font, permutation)")
     chunk = 8
-    required_witnesses = ("GSUB font", "GPOS font", "CFF font", "gvar font", "kern table", "full permutation group", "lazily loaded font", "vertical advance varies (VVAR)")
+    required_witnesses = ("GSUB font", "GPOS font", "CFF font", "gvar font", "kern table", "full permutation group", "lazily loaded font", "vertical advance varies (VVAR)", "font saved once before the reordering")
 
     def setup(self, tier, seed):
         load_fonts()
@@ -474,14 +474,23 @@ class Reorder(Unit):
                     # the same permutation on a lazily loaded font (tables and OpenType sub-tables
                     # decoded on demand)
                     yield [key, p, True]
+                    # ... and on a font object that was saved once before (whatever a compile caches -
+                    # glyph-name to glyph-ID maps, packed glyph data - is then in place)
+                    yield [key, p, "saved-before"]
 
     def check(self, case, rec):
         key, p = case[:2]
         lazy = case[2] if len(case) > 2 else None
         strlen = 2
         before = base_snapshot(key, strlen)
-        font = TTFont(io.BytesIO(_FONTS[key]), lazy=lazy)
-        if lazy:
+        saved_before = lazy == "saved-before"
+        font = TTFont(io.BytesIO(_FONTS[key]), lazy=None if saved_before else lazy)
+        if saved_before:
+            # decoded first: an undecoded table is copied, not compiled, and fills no cache
+            font.ensureDecompiled()
+            font.save(io.BytesIO())
+            rec.witness("font saved once before the reordering")
+        elif lazy:
             rec.witness("lazily loaded font")
         order = font.getGlyphOrder()
         if len(set(order)) != len(order):
